@@ -153,15 +153,21 @@ class C18(Prop):
     level_note = ('Trusted: Lean kernel + standard axioms; translator for the tables; the two sentinel rows (negative ids) are excluded from "well-known"; user name < 2^16 and '
                   'entry < 2^24 are part of the limits (the code truncates silently beyond).')
     design_ref = '§5 C18'
-    rule = ('lists of 0..6 entries of all six kinds, MIME names well-known (every table row is used, as enum and as bytes) or custom at lengths 1,2,127,128 and out-of-limit '
+    rule = ('lists of 0..6 entries of all six kinds, MIME names well-known (every table row is used, as enum and as bytes), near misses of well-known names (other case, white space, one character off) or custom at lengths 1,2,127,128 and out-of-limit '
             '0,129,200; tags at 0,1,254,255 and out-of-limit 256,300; credentials 0..70 bytes and at the byte boundaries of their length fields (user names of 255..65535 bytes, tokens and item contents of 255..70000 bytes); a third of the lists built through rsocket/extensions/helpers.py; batches re-run in a sub-process with cbitstruct blocked (struct fallbacks of frame_helpers.py); plus truncations / bit flips / random bytes of valid composites; '
             'non-trivial = at least two entries or a boundary length; distinct = distinct entry list / blob')
     assumptions = ['entries are built through the repo classes; a str-typed encoding is not generated (bytes and enum values are)']
 
     def _mime(self, rng, table, allow_bad=False):
         x = rng.random()
-        if x < 0.5:
+        if x < 0.45:
             return rng.choice(table).hex()
+        if x < 0.55:
+            # a custom name that is a near miss of a well-known one: other case, white space, one character off (it must stay custom)
+            b = rng.choice(table)
+            v = rng.choice([b.upper(), b.title(), b.swapcase(), b + b' ', b' ' + b, b[:-1], b + b'x'])
+            if v not in table and 1 <= len(v) <= 128:
+                return v.hex()
         n = rng.choice([1, 2, 3, 20, 127, 128] + ([0, 129, 200] if allow_bad else []))
         return bytes(97 + rng.randrange(26) for _ in range(n)).hex()
 
